@@ -21,5 +21,8 @@ def main():
             print('%-60s %-9s %4d obl %3d failed  %.1fs  %s' % (r.name, r.status, len(r.obligations), len(r.failed), r.seconds, r.reason[:3000]))
             for o in r.failed[:12]:
                 print('     FAILED', o['name'], '|', o['description'][:110])
+                if '-t' in sys.argv:
+                    import replay
+                    for st in replay.trim_trace(o.get('trace', []), 60): print('        ', st)
             if '-c' in sys.argv: print('     canaries', r.canaries)
 main()
